@@ -185,7 +185,7 @@ def job(arg):
     kind, params, bound, use_hash, prefix, max_exec, deadline = arg
     ex = Explorer(_CFG["scenario"], params, bound, use_hash, max_exec, deadline)
     if kind == "root":
-        prefixes = ex.first_level() if bound > 0 else (ex.run([]) and [])
+        prefixes = ex.first_level()   # also for bound 0: alternatives of cost 0 (configuration-like choices) are explored
         return ("root", params, prefixes, ex.stats, dict(ex.viol_sigs))
     ex.explore(prefix)
     return ("sub", params, None, ex.stats, dict(ex.viol_sigs))
